@@ -12,6 +12,8 @@ CONSTANTS
   MaxRestarts = 2
   QKinds = {}
   ResetKvs = TRUE
+  MaxCrashes = 0
+  TrimFloor = 0
   HdrRebuilt = TRUE
 INVARIANTS TypeOK PersistentIsFunctionOfChain
 PROPERTIES HashesDependOnlyOnChain ResultDependsOnlyOnChain QueriesDependOnlyOnChain QueryNeverPanics
